@@ -21,4 +21,5 @@ for m in re.finditer(r"def (fp_C\d+) : Nat := (0x[0-9a-f]+)", gen):
 L += ["", "end QR.Pinned", ""]
 open(os.path.join(VERIF, "lean", "QR", "Proofs", "Pinned.lean"), "w").write("\n".join(L))
 shutil.copy(os.path.join(VERIF, "lean", "QR", "Gen", "fingerprints.json"), os.path.join(VERIF, "corpus", "fingerprints_baseline.json"))
-print("pinned", len(keys), "functions")
+ks = json.load(open(os.path.join(VERIF, "lean", "QR", "Gen", "fingerprint_keys.json")))
+print("pinned", len({k for v in ks.values() for k in v}), "functions over", len(ks), "properties")
